@@ -563,9 +563,30 @@ Proof.
   inversion H; subst. repeat split; [assumption|]. apply IH. assumption.
 Qed.
 
-(** the tie for every configuration at once: the computed hypotheses are what the '*_model' case file of
-    harness/c15.py establishes for its parsed design [d]; the conclusion is the monitor obligation on the
-    emitted VHDL with ANY bound K >= max tx rx (the harness's own monitor cases use 2 (tx + rx) + 3) *)
+(** the tie for every configuration at once, from the statement of a '*_model' case theorem of harness/c15.py
+    (emitted VHDL trace = model trace for all input sequences over the alphabet) to the monitor obligation on
+    the emitted VHDL with ANY bound K >= max tx rx (the harness states it with 2 (tx + rx) + 3 and with max tx rx) *)
+Theorem ho_traces_tie : forall d mid alphabet (tx rx : nat) (g p : bool) (w : BinNums.N) (K : Z) (strict : bool),
+  (forall ins, admissible (ho_rstep tx g p w) alphabet (fun _ _ => true) (ho_init tx rx) ins ->
+     traceA (sstep d mid) (power_up_s d) ins = traceB (ho_rstep tx g p w) (ho_init tx rx) ins) ->
+  forallb (wf_in p) alphabet = true ->
+  Z.of_nat (Nat.max tx rx) <= K ->
+  forall ins, Forall (fun i => In i alphabet) ins ->
+    Forall (fun o => o = okout)
+           (traceA (mstep_s d mid (chan_monitor K strict)) (power_up_s d, [0; 0; 0; 0]) ins).
+Proof.
+  intros d mid alphabet tx rx g p w K strict Hc Hwf HK ins Hin.
+  change (mstep_s d mid (chan_monitor K strict)) with (rmstep (sstep d mid) (chan_monitor K strict)).
+  rewrite (monitor_transfer (sstep d mid) (ho_rstep tx g p w) (chan_monitor K strict)
+             (fun i => In i alphabet) ins (power_up_s d) (ho_init tx rx) [0; 0; 0; 0]).
+  - apply ho_monitor_ok; [exact HK|].
+    rewrite forallb_forall in Hwf. apply Forall_forall. intros i Hi. apply Hwf.
+    rewrite Forall_forall in Hin. apply Hin. exact Hi.
+  - intros js Hjs. apply Hc. apply admissible_true. exact Hjs.
+  - exact Hin.
+Qed.
+
+(** the same from the two computed hypotheses of a case file *)
 Theorem ho_code_tie : forall d mid alphabet fuel (tx rx : nat) (g p : bool) (w : BinNums.N) (K : Z) (strict : bool),
   conc_all_ok (auto_Ts d) d = true ->
   is_ok (rcheck_s d mid (ho_rstep tx g p w) alphabet (fun _ _ => true) fuel (ho_init tx rx)) = true ->
@@ -575,15 +596,8 @@ Theorem ho_code_tie : forall d mid alphabet fuel (tx rx : nat) (g p : bool) (w :
     Forall (fun o => o = okout)
            (traceA (mstep_s d mid (chan_monitor K strict)) (power_up_s d, [0; 0; 0; 0]) ins).
 Proof.
-  intros d mid alphabet fuel tx rx g p w K strict Hd Hc Hwf HK ins Hin.
-  change (mstep_s d mid (chan_monitor K strict)) with (rmstep (sstep d mid) (chan_monitor K strict)).
-  rewrite (monitor_transfer (sstep d mid) (ho_rstep tx g p w) (chan_monitor K strict)
-             (fun i => In i alphabet) ins (power_up_s d) (ho_init tx rx) [0; 0; 0; 0]).
-  - apply ho_monitor_ok; [exact HK|].
-    rewrite forallb_forall in Hwf. apply Forall_forall. intros i Hi. apply Hwf.
-    rewrite Forall_forall in Hin. apply Hin. exact Hi.
-  - intros js Hjs. apply (rcheck_s_sound d mid _ alphabet _ fuel _ Hd Hc). apply admissible_true. exact Hjs.
-  - exact Hin.
+  intros d mid alphabet fuel tx rx g p w K strict Hd Hc. apply (ho_traces_tie d mid alphabet tx rx g p w K strict).
+  exact (rcheck_s_sound d mid _ alphabet _ fuel _ Hd Hc).
 Qed.
 
 (** ** the observable statement on the [list Z] machine and on the emitted VHDL *)
